@@ -4,6 +4,7 @@ import NurbsVerif.Model.Eval
 import NurbsVerif.Model.Grid
 import NurbsVerif.Model.BasisDers
 import NurbsVerif.Model.Length
+import NurbsVerif.Model.SpanR
 import NurbsVerif.Driver.Parse
 /- handlers for span / basis / knot vector / evaluation / derivative ops (C01, C02, C03, C17, C18) -/
 namespace Drv
@@ -23,10 +24,12 @@ def sortedR (l : List Rat) : Bool := isSortedB l
 def okKv (p n : Nat) (U : List Rat) : Bool := decide (1 ≤ p) && decide (p + 1 ≤ n) && decide (U.length = n + p + 1) && sortedR U
 /-- F-01b guard: the span the MODEL's linear search finds at `u` is empty (`U_k = U_{k+1}`).  On the closed domain of a
     sorted knot vector this happens only at `u = U_n` when `U_{n-1} = U_n` (an unclamped vector whose repeated knot sits
-    exactly on the domain end, or an end knot repeated `p + 2` times).  The model does not have the step back to the last
-    non-empty span that the repaired `find_span_linear` / `find_span_binsearch` perform there (every theorem assumes
-    `KnotsOk`: non-empty last span), and evaluating on an empty span divides by zero (`x / 0 = 0` in Lean): the ops
-    answer ERR instead of printing such a value. -/
+    exactly on the domain end, or an end knot repeated `p + 2` times).  `findSpanLinear` / `findSpanBin` do not have the step
+    back to the last non-empty span that the repaired `find_span_linear` / `find_span_binsearch` perform there (the theorems
+    about them assume `KnotsOk`: non-empty last span), and evaluating on an empty span divides by zero (`x / 0 = 0` in
+    Lean): the ops running them answer ERR instead of printing such a value.  The transcriptions of the repaired searches
+    are `findSpanLinearR` / `findSpanBinR` (`Model/SpanR.lean`): ops `span linr`, `span binr`, `cevalr`, `sevalr`, `vevalr`,
+    without this guard. -/
 def emptySpanAt (p n : Nat) (U : List Rat) (u : Rat) : Bool :=
   let k := findSpanLinear p (fn U) n u
   fn U k == fn U (k + 1)
@@ -34,6 +37,13 @@ def emptySpanAt (p n : Nat) (U : List Rat) (u : Rat) : Bool :=
 /-- parameter in the closed domain AND (F-01b guard) the span the model finds there is not empty -/
 def inDom (p n : Nat) (U : List Rat) (u : Rat) : Bool :=
   decide (fn U p ≤ u) && decide (u ≤ fn U n) && !emptySpanAt p n U u
+
+/-- guard of the R ops (REPAIRED span searches, `Model/SpanR.lean`: step back to the last non-empty span at the domain
+    end): parameter in the closed domain of a non-degenerate domain `U_p < U_n` – NO `emptySpanAt` guard; by
+    `Geomdl.findSpanLinearR_dom` the span the repaired search finds is then never empty (on a degenerate domain
+    `U_p = U_n` every span of the domain is empty and the code's A2.2 raises ZeroDivisionError: ERR) -/
+def inDomR (p n : Nat) (U : List Rat) (u : Rat) : Bool :=
+  decide (fn U p ≤ u) && decide (u ≤ fn U n) && decide (fn U p < fn U n)
 
 /-- a sampled grid always contains the domain end `U_n`: F-01b guard for the grid ops -/
 def lastSpanEmpty (p n : Nat) (U : List Rat) : Bool := emptySpanAt p n U (fn U n)
@@ -46,6 +56,13 @@ def doProject (rat : Bool) (pt : List Rat) : List Rat := if rat then project pt 
 def handleBasic : List String → Option String
   | ["span", kind, p, n, us, u] => do
       let p ← p.toNat?; let n ← n.toNat?; let U ← parseList us; let u ← parseRat u
+      -- repaired searches (F-01b): closed domain, no empty-span guard
+      if kind == "linr" || kind == "binr" then
+        if !(okKv p n U && decide (fn U p ≤ u) && decide (u ≤ fn U n)) then return "ERR"
+        if kind == "linr" then return toString (findSpanLinearR p (fn U) n u)
+        else match findSpanBinR p (fn U) n u tolSpan with
+          | some k => return toString k
+          | none => return "ERR"
       if !(okKv p n U && inDom p n U u) then return "ERR"
       if kind == "lin" then return toString (findSpanLinear p (fn U) n u)
       else match findSpanBin p (fn U) n u tolSpan with
@@ -100,6 +117,23 @@ def handleBasic : List String → Option String
       let p ← p.toNat?; let U ← parseList us; let P ← parsePts ps; let u ← parseRat u
       if !(okKv p P.length U && inDom p P.length U u) then return "ERR"
       return showList (doProject (rat == "1") (curvePoint p (fn U) P u))
+  | ["cevalr", rat, p, us, ps, u] => do
+      let p ← p.toNat?; let U ← parseList us; let P ← parsePts ps; let u ← parseRat u
+      if !(okKv p P.length U && inDomR p P.length U u) then return "ERR"
+      return showList (doProject (rat == "1") (curvePointR p (fn U) P u))
+  | ["sevalr", rat, pu, pv, uus, uvs, su, sv, ps, u, v] => do
+      let pu ← pu.toNat?; let pv ← pv.toNat?; let Uu ← parseList uus; let Uv ← parseList uvs
+      let su ← su.toNat?; let sv ← sv.toNat?; let P ← parsePts ps; let u ← parseRat u; let v ← parseRat v
+      if !(okKv pu su Uu && okKv pv sv Uv && inDomR pu su Uu u && inDomR pv sv Uv v && P.length == su * sv) then return "ERR"
+      return showList (doProject (rat == "1") (surfacePointR pu pv (fn Uu) (fn Uv) su sv P u v))
+  | ["vevalr", rat, pu, pv, pw, uus, uvs, uws, su, sv, sw, ps, u, v, w] => do
+      let pu ← pu.toNat?; let pv ← pv.toNat?; let pw ← pw.toNat?
+      let Uu ← parseList uus; let Uv ← parseList uvs; let Uw ← parseList uws
+      let su ← su.toNat?; let sv ← sv.toNat?; let sw ← sw.toNat?
+      let P ← parsePts ps; let u ← parseRat u; let v ← parseRat v; let w ← parseRat w
+      if !(okKv pu su Uu && okKv pv sv Uv && okKv pw sw Uw && inDomR pu su Uu u && inDomR pv sv Uv v
+           && inDomR pw sw Uw w && P.length == su * sv * sw) then return "ERR"
+      return showList (doProject (rat == "1") (volumePointR pu pv pw (fn Uu) (fn Uv) (fn Uw) su sv sw P u v w))
   | ["seval", rat, pu, pv, uus, uvs, su, sv, ps, u, v] => do
       let pu ← pu.toNat?; let pv ← pv.toNat?; let Uu ← parseList uus; let Uv ← parseList uvs
       let su ← su.toNat?; let sv ← sv.toNat?; let P ← parsePts ps; let u ← parseRat u; let v ← parseRat v
